@@ -248,6 +248,8 @@ impl C12 {
         let rect = (( -2i64, -1i64), (5i64, 3i64));
         let poly: Vec<P> = vec![(0, 0), (6, 0), (6, 2), (2, 2), (2, 5), (0, 5)]; // asymmetric L, ccw
         let path: Vec<P> = vec![(0, 0), (7, 0), (7, -4)];
+        // a triangle that states its first vertex again at the end (the way GDSII boundaries are written)
+        let closed: Vec<P> = vec![(1, 1), (4, 1), (1, 3), (1, 1)];
         let leaf = Layout {
             name: "leaf".into(),
             insts: vec![],
@@ -255,6 +257,7 @@ impl C12 {
                 Element { net: None, layer: lk, purpose: LayerPurpose::Drawing, inner: Shape::Rect(Rect { p0: rp(rect.0), p1: rp(rect.1) }) },
                 Element { net: None, layer: lk, purpose: LayerPurpose::Drawing, inner: Shape::Polygon(Polygon { points: poly.iter().map(|p| rp(*p)).collect() }) },
                 Element { net: None, layer: lk, purpose: LayerPurpose::Drawing, inner: Shape::Path(Path { points: path.iter().map(|p| rp(*p)).collect(), width: 2 }) },
+                Element { net: None, layer: lk, purpose: LayerPurpose::Drawing, inner: Shape::Polygon(Polygon { points: closed.iter().map(|p| rp(*p)).collect() }) },
             ],
             annotations: vec![],
         };
@@ -277,7 +280,7 @@ impl C12 {
             Ok(Err(e)) => cx.fail(key, "flatten-error", None, || format!("flatten failed: {}", truncate(&e, 200)), || Value::Null),
             Ok(Ok(elems)) => {
                 cx.stats.evaluations += 1;
-                let mut ok = elems.len() == 3;
+                let mut ok = elems.len() == 4;
                 let mut why = String::new();
                 if ok {
                     // rect: compare as corner pair up to choice of opposite corners (image of p0,p1 exactly)
@@ -332,6 +335,22 @@ impl C12 {
                         _ => {
                             ok = false;
                             why = "path changed kind".into()
+                        }
+                    }
+                }
+                if ok {
+                    match &elems[3].inner {
+                        Shape::Polygon(pg) => {
+                            let got: Vec<P> = pg.points.iter().map(ip).collect();
+                            let want: Vec<P> = closed.iter().map(|p| exact.apply(*p)).collect();
+                            if got != want {
+                                ok = false;
+                                why = format!("explicitly closed polygon {got:?} want {want:?}");
+                            }
+                        }
+                        _ => {
+                            ok = false;
+                            why = "closed polygon changed kind".into()
                         }
                     }
                 }
@@ -788,7 +807,7 @@ impl Driver for C12 {
         let d = tier.pick(3, 6);
         Describe {
             rule: format!(
-                "single placements: reflect in {{f,t}} x angle in {{None,0,90,180,270,-90,-180,-270,-360,360,450,-630,-0}} x offsets {{0,1,-7,1000,-2^31,2^31-1}}^2 x every point of the 9x9 grid (-4..4)^2 plus the four i32 corners, judged three ways (from_instance == cascade(translate, cascade(rotate, reflect_vert)) == exact integer map); chains: every word of depth 1..={d} over the 8 orientations x 3 offsets per level, as cascaded Transforms on 6 probe points and through the real Layout::flatten on a nested layout holding a rectangle, an asymmetric L polygon and a path (shape-by-shape exact images; polygon orientation flips iff odd number of reflections); general angles: every integer degree 0..359 x reflect x 2 offsets x the grid and three large points, as from_instance and as the composition of translate, rotate and reflect_vert, each within 0.5+1e-5 of a double-precision reference with exact octant reduction; nested general angles: parent at every integer degree x reflect over a child in each of the 8 right-angle orientations and one general angle x 3 non-zero child offsets, as cascaded Transforms and through Layout::flatten, every point within half a unit of the exact real composition (rounded once); sibling instances: (no parent / a parent in each of the 8 orientations) over a cell holding three instances of one leaf - two in every pair of the 8 orientations x 2 offsets and a plain one, listed last / first / in the middle, the three named differently / all with an empty name / all with the same name - and an own rectangle, every flattened shape compared with the exact image under the placements on its own path only (multiset); angles next to a right angle: 90q + d for d in +-{{0.001, 0.004, 0.01, 0.05, 0.1, 0.25, 0.5, 0.75, 0.81, 1.5}} degrees and the fractional general angles 90q +- 22.5, +- 33.3, 44.999, 45.001, 67.5, -67.25 x reflect on points with coordinates up to 1e6, as from_instance, as a cascade over a plain child at (100000, 0) and through Layout::flatten, within half a unit. A state is one placement / chain word; non-trivial = not the identity orientation."
+                "single placements: reflect in {{f,t}} x angle in {{None,0,90,180,270,-90,-180,-270,-360,360,450,-630,-0}} x offsets {{0,1,-7,1000,-2^31,2^31-1}}^2 x every point of the 9x9 grid (-4..4)^2 plus the four i32 corners, judged three ways (from_instance == cascade(translate, cascade(rotate, reflect_vert)) == exact integer map); chains: every word of depth 1..={d} over the 8 orientations x 3 offsets per level, as cascaded Transforms on 6 probe points and through the real Layout::flatten on a nested layout holding a rectangle, an asymmetric L polygon, a path and a triangle stating its first vertex again at the end (shape-by-shape exact images; polygon orientation flips iff odd number of reflections); general angles: every integer degree 0..359 x reflect x 2 offsets x the grid and three large points, as from_instance and as the composition of translate, rotate and reflect_vert, each within 0.5+1e-5 of a double-precision reference with exact octant reduction; nested general angles: parent at every integer degree x reflect over a child in each of the 8 right-angle orientations and one general angle x 3 non-zero child offsets, as cascaded Transforms and through Layout::flatten, every point within half a unit of the exact real composition (rounded once); sibling instances: (no parent / a parent in each of the 8 orientations) over a cell holding three instances of one leaf - two in every pair of the 8 orientations x 2 offsets and a plain one, listed last / first / in the middle, the three named differently / all with an empty name / all with the same name - and an own rectangle, every flattened shape compared with the exact image under the placements on its own path only (multiset); angles next to a right angle: 90q + d for d in +-{{0.001, 0.004, 0.01, 0.05, 0.1, 0.25, 0.5, 0.75, 0.81, 1.5}} degrees and the fractional general angles 90q +- 22.5, +- 33.3, 44.999, 45.001, 67.5, -67.25 x reflect on points with coordinates up to 1e6, as from_instance, as a cascade over a plain child at (100000, 0) and through Layout::flatten, within half a unit. A state is one placement / chain word; non-trivial = not the identity orientation."
             ),
             assumptions: vec!["general angles: the half unit is the statement's tolerance; 1e-5 covers double-precision evaluation".into()],
             excluded: vec!["non-integer angles and magnification".into()],
